@@ -266,9 +266,10 @@ func jlStream(seed uint64, tier string, outDir string, props map[string]bool, fo
 			violate(fmt.Sprintf("jl: an unrelated row.yml leaks into the inline template: %q vs %q", rb.stdout, rc.stdout), ctx)
 		}
 		// the library streamer with the equivalent templates
-		if allWellFormed(cols) {
-			ti, to := libTemplates(cols)
+		{
 			// the scalars of the rows the library builds on the way join the oracle transcripts of the model case
+			// (also when some descriptor is malformed: the well-formed columns beside it still convert values)
+			ti, to := libTemplates(cols)
 			for _, l := range lines {
 				guard(func() {
 					if row, err := ti.GetImporter(strings.NewReader(l)).ReadOne(); err == nil && row != nil {
@@ -282,6 +283,9 @@ func jlStream(seed uint64, tier string, outDir string, props map[string]bool, fo
 					}
 				})
 			}
+		}
+		if allWellFormed(cols) {
+			ti, to := libTemplates(cols)
 			var lib bytes.Buffer
 			_ = jsonline.NewStreamer(ti.GetImporter(strings.NewReader(stdin)), to.GetExporter(&lib)).WithProcessor(jsonline.NoFailureProcessor).Stream()
 			rep.OracleChecks["C19"]++
@@ -299,8 +303,11 @@ func jlStream(seed uint64, tier string, outDir string, props map[string]bool, fo
 		for _, v := range sink.vals {
 			t := transcriptFor(v)
 			tr.ffmt, tr.fparse, tr.f2i, tr.loc, tr.slow = append(tr.ffmt, t.ffmt...), append(tr.fparse, t.fparse...), append(tr.f2i, t.f2i...), append(tr.loc, t.loc...), append(tr.slow, t.slow...)
-			if x, ok := v.(float64); ok {
+			switch x := v.(type) {
+			case float64:
 				jfl = append(jfl, fmt.Sprintf("((false, %d), %s)", math.Float64bits(x), gOptMarshal(x)))
+			case float32:
+				jfl = append(jfl, fmt.Sprintf("((true, %d), %s)", math.Float32bits(x), gOptMarshal(x)))
 			}
 		}
 		glines := make([]string, len(lines))
